@@ -20,3 +20,12 @@ claim("C01", "typestate, must-record and partition queries over go/cfg paths of 
       "Decides on every control-flow path of the queue's delivery loop: the downstream delivery is closed exactly once and never used afterwards; Commit only when not all accepted recipients failed; each failure of Start/AddRcpt/Body/Commit is recorded for every recipient it concerns; the per-attempt classification is a partition with retry only for temporary/unclassified errors and strictly below max_tries (comparison evaluated at tries=0,max=1 and max=2); the report is decided and handed over before the spool forgets; emitDSN suppresses only for the three allowed reasons. The status keys reported by targets below the queue are C09's rules.",
       "trusts go/types, go/cfg; does not model remote servers", "DESIGN.md §3 C01")
 PENDING.pop("C01", None)
+
+claim("C10", "type-graph reachability of credential fields through JSON-visible fields; dominance/ordering queries (go/cfg) that every encoder operand is a stripped fresh copy; parameter pass-through and file-role agreement rules",
+      "Decides: the only JSON-visible path from the spooled record to a credential is MsgMetadata.Conn, and every JSON encoding in the queue package is dominated by DeepCopy → Conn=nil with no later store of a connection state; the envelope fields named by the property are JSON-visible and round-trippable and reader/writer use one type; header/body/envelope parameters reach the file writer and the downstream target without intervening stores, mutating calls or bounded readers; reader and writer agree on file roles. Byte-exactness of the library serialisers is not decided.",
+      "trusts go/types, go/cfg; A2 (encoding/json field visibility rules)", "DESIGN.md §3 C10")
+PENDING.pop("C10", None)
+claim("C18", "provenance and dominance rules over emitDSN / tryDelivery / toSMTPErr (go/cfg + type-checked AST)",
+      "Decides the structural clauses of the failure-report property: reported address = original-recipient-map entry of the failed recipient (fallback only on a miss); the report loop ranges over exactly the failed list; status/diagnostic come from the stored last error; bounce envelope = null return path → the failed message's sender, report metadata without original sender; a null-sender test dominates the bounce Start (loop freedom); the original header reaches the generator; a stored status can never be the unset 0.x.x. MIME well-formedness is not decided.",
+      "trusts go/types, go/cfg", "DESIGN.md §3 C18")
+PENDING.pop("C18", None)
